@@ -10,9 +10,28 @@ import time
 VERIF = os.path.dirname(os.path.dirname(os.path.abspath(__file__)))
 REPO = os.environ.get("VERIF_REPO", "/repo")
 BUILD = os.path.join(VERIF, ".build")
+HARNESS = os.path.join(VERIF, "harness")
+if REPO != "/repo":
+    # authoring aid (tools/seeded.py cross-evaluation): a second tree is checked through a copy of the harness whose
+    # path dependencies point at it, with build directories of its own. Registered checks always use /repo.
+    import hashlib as _h
+    import shutil as _sh
+    BUILD = os.path.join(BUILD, "alt", _h.sha1(REPO.encode()).hexdigest()[:10])
+    _alt = os.path.join(BUILD, "harness")
+    os.makedirs(BUILD, exist_ok=True)
+    for _base, _dirs, _files in os.walk(HARNESS):
+        _rel = os.path.relpath(_base, HARNESS)
+        os.makedirs(os.path.join(_alt, _rel), exist_ok=True)
+        for _f in _files:
+            _t = open(os.path.join(_base, _f)).read()
+            if _f.endswith((".toml", ".rs")):
+                _t = _t.replace('"/repo/', '"' + REPO.rstrip("/") + "/")
+            _p = os.path.join(_alt, _rel, _f)
+            if not os.path.exists(_p) or open(_p).read() != _t:     # keep mtimes: cargo must not rebuild for nothing
+                open(_p, "w").write(_t)
+    HARNESS = _alt
 TARGET = os.path.join(BUILD, "target")
 CLI_TARGET = os.path.join(BUILD, "target-cli")
-HARNESS = os.path.join(VERIF, "harness")
 RUSTFLAGS = "--cfg graphql_client_verif --check-cfg cfg(graphql_client_verif)"
 
 
